@@ -43,7 +43,16 @@ type C15Scenario struct {
 	Rise     int      `json:"rise,omitempty"`
 	Outcomes []string `json:"outcomes,omitempty"` // per host: string of S/F, one per check round (cyclic)
 	Rounds   int      `json:"rounds,omitempty"`
-	Churn    []Churn  `json:"churn,omitempty"` // membership changes while checks run
+	Churn    []Churn  `json:"churn,omitempty"`  // membership changes while checks run
+	Reconf   []Reconf `json:"reconf,omitempty"` // threshold-only configuration updates while checks run
+}
+
+// Reconf: after the given round, at a point where no check is in flight, the health-check configuration is
+// replaced by one that differs in the thresholds only (same checker, interval and timeout).
+type Reconf struct {
+	AfterRound int `json:"after_round"`
+	Fall       int `json:"fall"`
+	Rise       int `json:"rise"`
 }
 
 type Churn struct {
@@ -126,6 +135,14 @@ func (p c15) Gen(r *simhook.Rand, tier string, idx int) harness.Scenario {
 		}
 		for i := 0; i < r.Intn(3); i++ {
 			sc.Churn = append(sc.Churn, Churn{AfterRound: r.Intn(sc.Rounds), Host: r.Intn(sc.Hosts), Remove: r.Chance(1, 2)})
+		}
+		if r.Chance(1, 3) {
+			sc.Class = "monitor+reconf"
+			at := 0
+			for i := 0; i < 1+r.Intn(2); i++ {
+				at += 1 + r.Intn(sc.Rounds/2+1)
+				sc.Reconf = append(sc.Reconf, Reconf{AfterRound: at, Fall: 1 + r.Intn(5), Rise: 1 + r.Intn(5)})
+			}
 		}
 		return sc
 	}
@@ -504,6 +521,57 @@ func (p c15) runMonitor(t *testing.T, sc *C15Scenario) harness.Outcome {
 	stopped := false
 	rounds := 0
 	objs := map[string]*host.Host{}
+	// thresholds in force. cfgs[0] is the initial configuration; a later entry is in doubt for results obtained
+	// between the invocation of its update (inv) and the update's return (ret < 0 while pending).
+	type cfgAt struct{ fall, rise, inv, ret int }
+	cfgs := []cfgAt{{sc.Fall, sc.Rise, 0, 0}}
+	nres := 0                        // check results so far, all hosts
+	resSeq := map[*host.Host][]int{} // per host object: nres when each result was obtained
+	// thresholds that may have applied when the result with sequence number s was evaluated
+	thresholds := func(s int, fall bool) (lo, hi int) {
+		lo, hi = 1<<30, 0
+		add := func(c cfgAt) {
+			v := c.rise
+			if fall {
+				v = c.fall
+			}
+			if v < lo {
+				lo = v
+			}
+			if v > hi {
+				hi = v
+			}
+		}
+		last := 0
+		for i, c := range cfgs {
+			if c.ret >= 0 && c.ret <= s {
+				last = i
+			}
+		}
+		add(cfgs[last])
+		for _, c := range cfgs[last+1:] {
+			if c.inv <= s {
+				add(c)
+			}
+		}
+		return
+	}
+	needFor := func(h *host.Host, fall, strict bool) int {
+		sq := resSeq[h]
+		if len(sq) == 0 {
+			if fall {
+				return sc.Fall
+			}
+			return sc.Rise
+		}
+		lo, hi := thresholds(sq[len(sq)-1], fall)
+		if strict {
+			return hi
+		}
+		return lo
+	}
+	reconfDone := make([]bool, len(sc.Reconf))
+	var reconfTask *simhook.Task
 	w.setup = func(w *taskWorld) {
 		var hs []*host.Host
 		for i := 0; i < sc.Hosts; i++ {
@@ -513,7 +581,7 @@ func (p c15) runMonitor(t *testing.T, sc *C15Scenario) harness.Outcome {
 			state[h] = true
 		}
 		set = host.NewSet(hs...)
-		cfg := &pbhc.HealthCheck{Interval: time.Second, Timeout: 100 * time.Millisecond, FallThreshold: uint32(sc.Fall), RiseThreshold: uint32(sc.Rise)}
+		cfg := &pbhc.HealthCheck{Interval: time.Second, Timeout: 100 * time.Millisecond, FallThreshold: uint32(sc.Fall), RiseThreshold: uint32(sc.Rise), Checker: &pbhc.HealthCheck_TcpChecker{TcpChecker: &pbhc.TCPChecker{}}}
 		mon = proc.VerifNewMonitor(cfg, set, func(addr string, timeout time.Duration) error {
 			simhook.Yield("harness.check")
 			var idx int
@@ -527,7 +595,9 @@ func (p c15) runMonitor(t *testing.T, sc *C15Scenario) harness.Outcome {
 			// the monitor passes the address only, so attribute to the stored object (objs is kept in step with the set)
 			if h := objs[addr]; h != nil {
 				results[h] = append(results[h], ok)
+				resSeq[h] = append(resSeq[h], nres)
 			}
+			nres++
 			if ok {
 				return nil
 			}
@@ -548,10 +618,10 @@ func (p c15) runMonitor(t *testing.T, sc *C15Scenario) harness.Outcome {
 				continue
 			}
 			rs := results[h]
-			need := sc.Fall
+			need := needFor(h, true, false)
 			want := false // results that justify the flip
 			if cur {
-				need = sc.Rise
+				need = needFor(h, false, false)
 				want = true
 			}
 			n := 0
@@ -584,9 +654,9 @@ func (p c15) runMonitor(t *testing.T, sc *C15Scenario) harness.Outcome {
 			// a flip must have happened once far more than enough consecutive contrary results were seen
 			for addr, h := range objs {
 				rs := results[h]
-				need := sc.Fall
+				need := needFor(h, true, true)
 				if !h.IsHealthy() {
-					need = sc.Rise
+					need = needFor(h, false, true)
 				}
 				n := 0
 				for i := len(rs) - 1; i >= lastFlipAt[h] && rs[i] != h.IsHealthy(); i-- {
@@ -623,7 +693,29 @@ func (p c15) runMonitor(t *testing.T, sc *C15Scenario) harness.Outcome {
 				}
 			}
 		}
-		if rounds >= sc.Rounds && !stopped {
+		if reconfTask != nil && reconfTask.State == simhook.StDead {
+			reconfTask = nil
+			cfgs[len(cfgs)-1].ret = nres
+		}
+		for i, rc := range sc.Reconf {
+			if reconfDone[i] || rounds < rc.AfterRound || reconfTask != nil || stopped || len(w.rt.Parked()) != 0 {
+				continue
+			}
+			// no task is at a scheduling point: every result so far has been evaluated under the thresholds in force
+			reconfDone[i] = true
+			cfg := &pbhc.HealthCheck{Interval: time.Second, Timeout: 100 * time.Millisecond, FallThreshold: uint32(rc.Fall), RiseThreshold: uint32(rc.Rise), Checker: &pbhc.HealthCheck_TcpChecker{TcpChecker: &pbhc.TCPChecker{}}}
+			cfgs = append(cfgs, cfgAt{rc.Fall, rc.Rise, nres, -1})
+			m := mon.(interface {
+				ResetHealthCheck(*pbhc.HealthCheck) error
+			})
+			reconfTask = w.Go("harness:monitor-reconf", func() {
+				if err := m.ResetHealthCheck(cfg); err != nil {
+					bad = &simrt.Violation{Clause: "harness-build", Detail: "ResetHealthCheck: " + err.Error()}
+				}
+			})
+			break
+		}
+		if rounds >= sc.Rounds && !stopped && reconfTask == nil {
 			stopped = true
 			w.Go("harness:monitor-stop", func() { mon.Stop() })
 		}
@@ -667,6 +759,7 @@ func (p c15) Shrink(s harness.Scenario) []harness.Scenario {
 		c.Init = append([]SetOp(nil), sc.Init...)
 		c.Outcomes = append([]string(nil), sc.Outcomes...)
 		c.Churn = append([]Churn(nil), sc.Churn...)
+		c.Reconf = append([]Reconf(nil), sc.Reconf...)
 		return &c
 	}
 	if sc.Kind == "set" {
@@ -711,6 +804,11 @@ func (p c15) Shrink(s harness.Scenario) []harness.Scenario {
 		for i := range sc.Churn {
 			c := cp()
 			c.Churn = append(c.Churn[:i:i], c.Churn[i+1:]...)
+			out = append(out, c)
+		}
+		for i := range sc.Reconf {
+			c := cp()
+			c.Reconf = append(c.Reconf[:i:i], c.Reconf[i+1:]...)
 			out = append(out, c)
 		}
 		for i, o := range sc.Outcomes {
